@@ -1,3 +1,474 @@
-BOUNDS = {}
-ASSUMPTIONS = []
-def instances(tier): return []
+"""C06 (re): z3 regex-theory obligations on the parser's own patterns (see vf/engine/smt_regex.py).
+
+For every documented line form F with symbolic names X, Y (identifier or dotted names), symbolic whitespace and
+arrow text:
+  consume   F(X,Y) is wholly consumed by the body of some top-level alternative of the parser's pattern
+            (unsat of  line in Doc_F  and  line not in UNION body_b),
+  extract   for every alternative b, every decomposition  line = s0.A1.s1.A2.s2  with s_i in the constant parts
+            of b and A_i in its named-group bodies captures exactly the drawn names
+            (unsat of  line = F(X,Y)  and  decomposition  and  (importer, importee) != (X, Y)),
+  disjoint  a declaration line is never matched by the dependency pattern; a match of the declaration pattern
+            on an arrow line can only yield a drawn name without alias.
+Every obligation also produces one witness line (a sat query) that is pushed through the real parser
+(translator validation and the `_sre` side of the argument), and the repository's own .puml fixtures are
+pushed through both the real `re` and the translation line by line.
+"""
+
+from __future__ import annotations
+
+import glob
+import os
+import time
+
+import z3
+
+from vf.engine import bmc_regex as B
+from vf.engine import smt_regex as R
+
+BOUNDS = {
+    "line_length": 40,
+    "names": "identifier or dotted names ([A-Za-z_][A-Za-z0-9_]*)(\\.[A-Za-z_][A-Za-z0-9_]*)*, any length that fits the line",
+    "extraction_line_length": "every line length up to 13 (quick) / 24 (thorough) characters, one query per length (bounded run encoding over a symbolic character vector)",
+    "alphabet": "printable ASCII and TAB; a line contains no newline",
+    "arrow_text": "[A-Za-z0-9_]+",
+    "alias_whitespace": "exactly one whitespace character between 'as' and the alias in the extraction obligation",
+}
+ASSUMPTIONS = [
+    "regex obligations: per-line analysis (no newline inside a line; \\s+ spanning lines is outside), ASCII alphabet (\\w is Unicode in the real engine)",
+    "extraction is shown for whole-line decompositions; that the backtracking engine's leftmost-greedy match on a documented line is the whole line is exercised by replaying one witness per obligation and by the unify instances, not proved",
+]
+
+ARROW_FORMS = ["-->", "->", "<--", "<-", "-t->", "<-t-"]
+REF_FORMS = ["bracket", "bare"]
+DECL_FORMS = ["[N]", "component N", "component [N]"]
+TIMEOUT_MS = 120000
+NMAX = {"quick": 13, "thorough": 24}
+
+
+def _ident():
+    head = R.set_re({c for c in R.ALPHABET if c.isalpha() or c == "_"})
+    tail = R.set_re(R.WORD)
+    return z3.Concat(head, z3.Star(tail))
+
+
+def NAME():
+    i = _ident()
+    return z3.Concat(i, z3.Star(z3.Concat(z3.Re("."), i)))
+
+
+def WS():
+    return z3.Plus(R.set_re({" ", "\t"}))
+
+
+def TEXT():
+    return z3.Plus(R.set_re(R.WORD))
+
+
+# --- the documented forms as ASTs (for the bounded run encoding, vf/engine/bmc_regex.py) -------------------
+
+
+def _lit(t: str):
+    return ("cat", [("set", frozenset({c})) for c in t])
+
+
+_A_IDENT = ("cat", [("set", frozenset(c for c in R.ALPHABET if c.isalpha() or c == "_")), ("rep", ("set", frozenset(R.WORD)), 0, None)])
+_A_NAME = ("cat", [_A_IDENT, ("rep", ("cat", [("set", frozenset({"."})), _A_IDENT]), 0, None)])
+_A_WS = ("rep", ("set", frozenset({" ", "\t"})), 1, None)
+_A_TEXT = ("rep", ("set", frozenset(R.WORD)), 1, None)
+_A_SIGMA_STAR = ("rep", ("set", frozenset(R.ALPHABET)), 0, None)
+
+
+def _a_ref(form: str, g: str):
+    n = ("group", g, _A_NAME)
+    return ("cat", [_lit("["), n, _lit("]")]) if form == "bracket" else n
+
+
+def arrow_doc_ast(arrow: str, lf: str, rf: str):
+    """Documented arrow line; group 'importer' / 'importee' mark the drawn names."""
+    right = arrow in ("-->", "->", "-t->")
+    a = {"-->": _lit("-->"), "->": _lit("->"), "<--": _lit("<--"), "<-": _lit("<-"), "-t->": ("cat", [_lit("-"), _A_TEXT, _lit("->")]), "<-t-": ("cat", [_lit("<-"), _A_TEXT, _lit("-")])}[arrow]
+    return ("cat", [_a_ref(lf, "importer" if right else "importee"), _A_WS, a, _A_WS, _a_ref(rf, "importee" if right else "importer")])
+
+
+def decl_doc_ast(form: str, alias: bool):
+    n = ("group", "name", _A_NAME)
+    base = {"[N]": [_lit("["), n, _lit("]")], "component N": [_lit("component"), _A_WS, n], "component [N]": [_lit("component"), _A_WS, _lit("["), n, _lit("]")]}[form]
+    if alias:
+        # exactly one whitespace character before the alias: the parser's alias group is '.+', so with more the
+        # split between '\\s+' and the alias is decided by the engine's greedy choice, not by the language
+        base = base + [_A_WS, _lit("as"), ("set", frozenset({" ", "\t"})), ("group", "alias", _A_IDENT)]
+    return ("cat", base)
+
+
+def branch_ast(b: dict, pad: bool):
+    items = list(b["items"])
+    if pad and not b["bol"]:
+        items = [_A_SIGMA_STAR] + items
+    if pad and not b["eol"]:
+        items = items + [_A_SIGMA_STAR]
+    return ("cat", items)
+
+
+def patterns() -> dict:
+    """{'decl': (pattern, flags), 'dep': (...), 'tags': (...)} captured from the running parser."""
+    import pytestarch.diagram_extension.diagram_parser as dp
+
+    got = R.capture(dp, lambda: dp.PumlParser._retrieve_modules_declared_outside_dependencies(""))
+    decl = got[-1]
+    got = R.capture(dp, lambda: dp.PumlParser._retrieve_dependencies_and_inline_modules(""))
+    dep = got[-1]
+    got = R.capture(dp, lambda: dp.PumlParser._remove_content_outside_start_and_end_tags("@startuml x @enduml"))
+    tags = got[-1]
+    return {"decl": decl, "dep": dep, "tags": tags}
+
+
+# ---------------------------------------------------------------------------------------------------
+
+
+def _ref(form: str, X):
+    return z3.Concat(z3.StringVal("["), X, z3.StringVal("]")) if form == "bracket" else X
+
+
+def _ref_re(form: str):
+    return z3.Concat(z3.Re("["), NAME(), z3.Re("]")) if form == "bracket" else NAME()
+
+
+def arrow_doc_re(arrow: str, lf: str, rf: str):
+    """Regex of the documented arrow line; left/right are textual sides."""
+    a = {"-->": z3.Re("-->"), "->": z3.Re("->"), "<--": z3.Re("<--"), "<-": z3.Re("<-"), "-t->": z3.Concat(z3.Re("-"), TEXT(), z3.Re("->")), "<-t-": z3.Concat(z3.Re("<-"), TEXT(), z3.Re("-"))}[arrow]
+    return z3.Concat(_ref_re(lf), WS(), a, WS(), _ref_re(rf))
+
+
+def arrow_doc_term(arrow: str, lf: str, rf: str, tag: str):
+    """(line term, constraints, importer var, importee var)."""
+    XL, XR = z3.String(f"XL{tag}"), z3.String(f"XR{tag}")
+    w1, w2, t = z3.String(f"w1{tag}"), z3.String(f"w2{tag}"), z3.String(f"t{tag}")
+    cons = [z3.InRe(XL, NAME()), z3.InRe(XR, NAME()), z3.Length(XL) <= 5, z3.Length(XR) <= 5, z3.InRe(w1, WS()), z3.InRe(w2, WS()), z3.Length(w1) <= 2, z3.Length(w2) <= 2]
+    if "t" in arrow:
+        cons += [z3.InRe(t, TEXT()), z3.Length(t) <= 3]
+        a = z3.Concat(z3.StringVal("-"), t, z3.StringVal("->")) if arrow == "-t->" else z3.Concat(z3.StringVal("<-"), t, z3.StringVal("-"))
+    else:
+        a = z3.StringVal(arrow)
+    line = z3.Concat(_ref(lf, XL), w1, a, w2, _ref(rf, XR))
+    right_pointing = arrow in ("-->", "->", "-t->")
+    importer, importee = (XL, XR) if right_pointing else (XR, XL)
+    return line, cons, importer, importee
+
+
+def decl_doc_re(form: str, alias: bool):
+    n = NAME()
+    base = {"[N]": z3.Concat(z3.Re("["), n, z3.Re("]")), "component N": z3.Concat(z3.Re("component"), WS(), n), "component [N]": z3.Concat(z3.Re("component"), WS(), z3.Re("["), n, z3.Re("]"))}[form]
+    if alias:
+        base = z3.Concat(base, WS(), z3.Re("as"), WS(), _ident())
+    return base
+
+
+def decl_doc_term(form: str, alias: bool, tag: str):
+    N, A = z3.String(f"N{tag}"), z3.String(f"A{tag}")
+    w0, w1, w2 = z3.String(f"w0{tag}"), z3.String(f"w1{tag}"), z3.String(f"w2{tag}")
+    cons = [z3.InRe(N, NAME()), z3.Length(N) <= 5]
+    if form == "[N]":
+        line = z3.Concat(z3.StringVal("["), N, z3.StringVal("]"))
+    elif form == "component N":
+        line = z3.Concat(z3.StringVal("component"), w0, N)
+        cons += [z3.InRe(w0, WS()), z3.Length(w0) <= 2]
+    else:
+        line = z3.Concat(z3.StringVal("component"), w0, z3.StringVal("["), N, z3.StringVal("]"))
+        cons += [z3.InRe(w0, WS()), z3.Length(w0) <= 2]
+    if alias:
+        line = z3.Concat(line, w1, z3.StringVal("as"), w2, A)
+        cons += [z3.InRe(A, _ident()), z3.Length(A) <= 3, z3.InRe(w1, WS()), z3.InRe(w2, WS()), z3.Length(w1) <= 2, z3.Length(w2) <= 2]
+    return line, cons, N, (A if alias else None)
+
+
+def decompose(b: dict, tag: str, pad_start: bool, pad_end: bool):
+    """Symbolic decomposition of a line by one alternative: (line term, constraints, {group: (var, taken Bool|True)})."""
+    segs, groups = R.split_at_named(b)
+    cons, parts, caps = [], [], {}
+    sig = R.SIGMA_STAR()
+    if pad_start:
+        pre = z3.String(f"pre{tag}")
+        cons.append(z3.InRe(pre, sig))
+        parts.append(pre)
+
+    def emit(segs, groups, tag, taken):
+        out = []
+        for i, seg in enumerate(segs):
+            s = z3.String(f"s{tag}_{i}")
+            cons.append(z3.InRe(s, seg))
+            out.append(s)
+            if i < len(groups):
+                g = groups[i]
+                if g[0] == "?opt":
+                    tk = z3.Bool(f"opt{tag}_{i}")
+                    inner = emit(g[1], g[2], f"{tag}_{i}o", tk)
+                    o = z3.String(f"o{tag}_{i}")
+                    cons.append(z3.If(tk, o == z3.Concat(*inner) if len(inner) > 1 else o == inner[0], o == z3.StringVal("")))
+                    out.append(o)
+                else:
+                    a = z3.String(f"A{tag}_{g[0]}")
+                    cons.append(z3.InRe(a, g[1]))
+                    caps[g[0]] = (a, taken)
+                    out.append(a)
+        return out
+
+    parts += emit(segs, groups, tag, z3.BoolVal(True))
+    if pad_end:
+        post = z3.String(f"post{tag}")
+        cons.append(z3.InRe(post, sig))
+        parts.append(post)
+    line = z3.Concat(*parts) if len(parts) > 1 else parts[0]
+    return line, cons, caps
+
+
+# ---------------------------------------------------------------------------------------------------
+
+
+def instances(tier: str) -> list[dict]:
+    out = []
+    for a in ARROW_FORMS:
+        for lf in REF_FORMS:
+            for rf in REF_FORMS:
+                out.append({"part": "re", "ob": "arrow", "arrow": a, "lf": lf, "rf": rf})
+    for f in DECL_FORMS:
+        for al in (False, True):
+            out.append({"part": "re", "ob": "decl", "form": f, "alias": al})
+    out.append({"part": "re", "ob": "fixtures"})
+    for i in out:
+        i["tier"] = tier
+    return out
+
+
+def _solver():
+    s = z3.Solver()
+    s.set("timeout", TIMEOUT_MS)
+    return s
+
+
+def _check(cons):
+    s = _solver()
+    s.add(*cons)
+    t0 = time.time()
+    r = str(s.check())
+    return r, (s.model() if r == "sat" else None), time.time() - t0
+
+
+def _str_of(model, term) -> str:
+    v = model.eval(term, model_completion=True)
+    return v.as_string() if hasattr(v, "as_string") else str(v)
+
+
+def _whole_bodies(ast):
+    return [R.cat_re([R.to_z3(i) for i in b["items"]]) for b in R.top_branches(ast)]
+
+
+def work(inst: dict) -> dict:
+    res = {"label": " ".join(f"{k}={v}" for k, v in inst.items()), "errors": [], "violations": [], "replays": 0, "paths": 0, "forks": 0, "queries": 0, "queries_unsat": 0, "queries_sat": 0, "queries_unknown": 0, "solver_s": 0.0, "functions": {"diagram_extension.diagram_parser:PumlParser._retrieve_dependencies_and_inline_modules", "diagram_extension.diagram_parser:PumlParser._retrieve_modules_declared_outside_dependencies"}}
+    pats = patterns()
+    try:
+        dep_ast = R.parse(*pats["dep"])
+        decl_ast = R.parse(*pats["decl"])
+    except R.Unsupported as e:
+        res["errors"].append(f"regex translator: unsupported construct in the parser's pattern: {e}")
+        return res
+    line = z3.String("line")
+    sigma = z3.InRe(line, R.SIGMA_STAR())
+
+    def q(name, cons, expect_unsat=True):
+        r, m, dt = _check(cons)
+        res["queries"] += 1
+        res["solver_s"] += dt
+        res["queries_" + r] = res.get("queries_" + r, 0) + 1
+        res["paths"] += 1
+        res["forks"] += 1
+        if r == "unknown":
+            res["errors"].append(f"solver unknown on {res['label']} / {name} after {dt:.0f}s")
+        return r, m
+
+    if inst["ob"] == "fixtures":
+        n = 0
+        for f in sorted(glob.glob(os.path.join(os.environ.get("VERIF_REPO", "/repo"), "tests", "**", "*.puml"), recursive=True)):
+            for ln in open(f, encoding="utf-8").read().splitlines():
+                for key in ("dep", "decl"):
+                    n += 1
+                    if not R.validate_line(*pats[key], ln):
+                        res["errors"].append(f"regex translator disagrees with re on line {ln!r} of {f} for the {key} pattern")
+        res["replays"] = n
+        res["paths"] = res["forks"] = max(n, 1)
+        res["samples"] = [{"instance": "fixtures", "lines_checked_against_real_re": n}]
+        return res
+
+    if inst["ob"] == "arrow":
+        a, lf, rf = inst["arrow"], inst["lf"], inst["rf"]
+        doc = arrow_doc_re(a, lf, rf)
+        bodies = _whole_bodies(dep_ast)
+        # consume
+        r, m = q("consume", [sigma, z3.Length(line) <= 40, z3.InRe(line, doc), z3.Not(z3.InRe(line, z3.Union(*bodies) if len(bodies) > 1 else bodies[0]))])
+        if r == "sat":
+            _report(res, inst, "consume", _str_of(m, line), None)
+        # extract, per alternative and line length (bounded run encoding)
+        dline, dcons, importer, importee = arrow_doc_term(a, lf, rf, "d")
+        dglu = B.Glushkov(arrow_doc_ast(a, lf, rf))
+        for bi, b in enumerate(R.top_branches(dep_ast)):
+            groups = R.named_groups_in(("cat", b["items"]))
+            gi = [g for g in groups if g.startswith("dependor")]
+            ge = [g for g in groups if g.startswith("dependee")]
+            if len(gi) != 1 or len(ge) != 1:
+                res["errors"].append(f"dependency alternative {bi}: expected one dependor and one dependee group, found {sorted(groups)}")
+                continue
+            pglu = B.Glushkov(branch_ast(b, pad=False))
+            for n in range(5, NMAX[inst.get("tier", "quick")] + 1):
+                cs, dom = B.chars(n)
+                dc, DS = B.run(dglu, cs, "d")
+                pc, PS = B.run(pglu, cs, "p")
+                wrong = z3.Or(*[z3.Or(B.in_group(pglu, PS, k, gi[0]) != B.in_group(dglu, DS, k, "importer"), B.in_group(pglu, PS, k, ge[0]) != B.in_group(dglu, DS, k, "importee")) for k in range(n)])
+                r, m = q(f"extract/alt{bi}/n{n}", dom + dc + pc + [wrong])
+                if r == "sat":
+                    _report(res, inst, f"extract/alt{bi}", B.model_line(m, cs), (B.captured(m, dglu, DS, cs, "importer"), B.captured(m, dglu, DS, cs, "importee")))
+                    break
+        # disjoint: a match of the declaration pattern on an arrow line yields only a drawn name, no alias
+        for bi, b in enumerate(R.top_branches(decl_ast)):
+            groups = R.named_groups_in(("cat", b["items"]))
+            name_g = [g for g in groups if g.startswith("m")]
+            alias_g = [g for g in groups if g.startswith("alias")]
+            if len(name_g) != 1:
+                res["errors"].append(f"declaration alternative {bi}: groups {sorted(groups)}")
+                continue
+            pglu = B.Glushkov(branch_ast(b, pad=True))
+            for n in range(5, NMAX[inst.get("tier", "quick")] + 1):
+                cs, dom = B.chars(n)
+                dc, DS = B.run(dglu, cs, "d")
+                pc, PS = B.run(pglu, cs, "p")
+                nm = [B.in_group(pglu, PS, k, name_g[0]) for k in range(n)]
+                not_l = z3.Or(*[nm[k] != B.in_group(dglu, DS, k, "importer") for k in range(n)])
+                not_r = z3.Or(*[nm[k] != B.in_group(dglu, DS, k, "importee") for k in range(n)])
+                has_alias = z3.Or(*[B.in_group(pglu, PS, k, g) for g in alias_g for k in range(n)]) if alias_g else z3.BoolVal(False)
+                r, m = q(f"decl-on-arrow/alt{bi}/n{n}", dom + dc + pc + [z3.Or(z3.And(not_l, not_r), has_alias)])
+                if r == "sat":
+                    _report(res, inst, f"decl-on-arrow/alt{bi}", B.model_line(m, cs), (B.captured(m, dglu, DS, cs, "importer"), B.captured(m, dglu, DS, cs, "importee")))
+                    break
+        # witness: one documented line with two different names, through the real parser
+        r, m = q("witness", [line == dline, sigma, *dcons, importer != importee, z3.Length(importer) >= 3], expect_unsat=False)
+        if r == "sat":
+            _witness_arrow(res, inst, pats, _str_of(m, line), _str_of(m, importer), _str_of(m, importee))
+        elif r == "unsat":
+            res["errors"].append(f"vacuous: no documented line exists for {res['label']}")
+    else:
+        form, al = inst["form"], inst["alias"]
+        doc = decl_doc_re(form, al)
+        bodies = _whole_bodies(decl_ast)
+        r, m = q("consume", [sigma, z3.Length(line) <= 40, z3.InRe(line, doc), z3.Not(z3.InRe(line, z3.Union(*bodies) if len(bodies) > 1 else bodies[0]))])
+        if r == "sat":
+            _report(res, inst, "consume", _str_of(m, line), None)
+        dline, dcons, N, A = decl_doc_term(form, al, "d")
+        dglu = B.Glushkov(decl_doc_ast(form, al))
+        for bi, b in enumerate(R.top_branches(decl_ast)):
+            groups = R.named_groups_in(("cat", b["items"]))
+            name_g = [g for g in groups if g.startswith("m")]
+            alias_g = [g for g in groups if g.startswith("alias")]
+            if len(name_g) != 1:
+                res["errors"].append(f"declaration alternative {bi}: groups {sorted(groups)}")
+                continue
+            pglu = B.Glushkov(branch_ast(b, pad=False))
+            for n in range(3, NMAX[inst.get("tier", "quick")] + 4):
+                cs, dom = B.chars(n)
+                dc, DS = B.run(dglu, cs, "d")
+                pc, PS = B.run(pglu, cs, "p")
+                wrong = []
+                for k in range(n):
+                    wrong.append(B.in_group(pglu, PS, k, name_g[0]) != B.in_group(dglu, DS, k, "name"))
+                    pa = z3.Or(*[B.in_group(pglu, PS, k, g) for g in alias_g]) if alias_g else z3.BoolVal(False)
+                    wrong.append(pa != B.in_group(dglu, DS, k, "alias"))
+                r, m = q(f"extract/alt{bi}/n{n}", dom + dc + pc + [z3.Or(*wrong)])
+                if r == "sat":
+                    _report(res, inst, f"extract/alt{bi}", B.model_line(m, cs), (B.captured(m, dglu, DS, cs, "name"), B.captured(m, dglu, DS, cs, "alias") if al else None))
+                    break
+        # disjoint: never read as an arrow
+        r, m = q("decl-not-arrow", [sigma, z3.Length(line) <= 40, z3.InRe(line, doc), z3.InRe(line, R.line_language(dep_ast))])
+        if r == "sat":
+            _report(res, inst, "decl-not-arrow", _str_of(m, line), None)
+        r, m = q("witness", [line == dline, sigma, *dcons, z3.Length(N) >= 3], expect_unsat=False)
+        if r == "sat":
+            _witness_decl(res, inst, pats, _str_of(m, line), _str_of(m, N), _str_of(m, A) if al else None)
+        elif r == "unsat":
+            res["errors"].append(f"vacuous: no documented line exists for {res['label']}")
+    res["solver_s"] = round(res["solver_s"], 3)
+    res.setdefault("samples", []).append({"instance": res["label"], "queries": res["queries"], "solver_s": res["solver_s"]})
+    return res
+
+
+def _parse_line(text_line: str):
+    from vf.props.c06 import parse_text
+
+    return parse_text("@startuml\n" + text_line + "\n@enduml\n", real_file=True)
+
+
+def _witness_arrow(res, inst, pats, ln, importer, importee):
+    res["replays"] += 1
+    for key in ("dep", "decl"):
+        if not R.validate_line(*pats[key], ln):
+            res["errors"].append(f"regex translator disagrees with re on witness {ln!r} ({key} pattern)")
+    got = _parse_line(ln)
+    want = ("PARSED", frozenset({importer, importee}), frozenset({(importer, importee)}))
+    if got != want:
+        _report(res, inst, "witness", ln, (importer, importee), got)
+    res.setdefault("samples", []).append({"witness_line": ln, "parsed": str(got)})
+
+
+def _witness_decl(res, inst, pats, ln, name, alias):
+    res["replays"] += 1
+    for key in ("dep", "decl"):
+        if not R.validate_line(*pats[key], ln):
+            res["errors"].append(f"regex translator disagrees with re on witness {ln!r} ({key} pattern)")
+    # declared component referenced by its alias (if any) from another component
+    ref = alias if alias else f"[{name}]"
+    from vf.props.c06 import parse_text
+
+    got = parse_text(f"@startuml\n{ln}\n[zz9] --> {ref}\n@enduml\n", real_file=True)
+    want = ("PARSED", frozenset({name, "zz9"}), frozenset({("zz9", name)}))
+    if got != want:
+        _report(res, inst, "witness", ln, (name, alias), got)
+    res.setdefault("samples", []).append({"witness_line": ln, "parsed": str(got)})
+
+
+def _report(res, inst, ob, ln, names, got=None):
+    """A sat obligation: confirm on the real parser before reporting."""
+    payload = {"kind": "re", "inst": inst, "obligation": ob, "line": ln, "names": list(names) if names else None}
+    ok, text, detail = replay_detail(payload)
+    res["replays"] += 1
+    if ok:
+        res["errors"].append(f"obligation {ob} of {res['label']} is sat with line {ln!r} but the real parser handles that line as documented ({text}): encoding too weak or whole-line assumption violated")
+    else:
+        payload.update({"text": text, "observed": detail, "signature": {"inst": inst, "ob": ob.split("/")[0]}})
+        res["violations"].append(payload)
+
+
+def replay_detail(payload: dict):
+    """Re-parse the line with the real parser and compare with the documented meaning of the line."""
+    inst, ln = payload["inst"], payload["line"]
+    from vf.props.c06 import parse_text
+
+    if inst["ob"] == "arrow":
+        # documented meaning computed from the line itself
+        import re as _re
+
+        m = _re.match(r"^(\[?)([\w.]+)(\]?)[ \t]+(<-\w*-?|-\w*-?>|->)[ \t]+(\[?)([\w.]+)(\]?)$", ln)
+        if not m:
+            return True, f"line {ln!r} is not a documented arrow line", {}
+        l, arrow, r = m.group(2), m.group(4), m.group(6)
+        importer, importee = (l, r) if arrow.endswith(">") else (r, l)
+        got = _parse_line(ln)
+        want = ("PARSED", frozenset({importer, importee}), frozenset({(importer, importee)}) if importer != importee or True else frozenset())
+        ok = got == want
+        return ok, f"arrow line {ln!r}: parser returned {got}, documented meaning: {importer} depends on {importee}", {"got": str(got)}
+    import re as _re
+
+    m = _re.match(r"^(?:component[ \t]+)?(\[?)([\w.]+)(\]?)(?:[ \t]+as[ \t]+(\w+))?$", ln)
+    if not m:
+        return True, f"line {ln!r} is not a documented declaration line", {}
+    name, alias = m.group(2), m.group(4)
+    ref = alias if alias else f"[{name}]"
+    got = parse_text(f"@startuml\n{ln}\n[zz9] --> {ref}\n@enduml\n", real_file=True)
+    want = ("PARSED", frozenset({name, "zz9"}), frozenset({("zz9", name)}))
+    ok = got == want
+    return ok, f"declaration line {ln!r} then '[zz9] --> {ref}': parser returned {got}, documented meaning: components {sorted({name, 'zz9'})}, zz9 depends on {name}", {"got": str(got)}
